@@ -37,13 +37,16 @@ Definition old_restores : list (string * string) :=
    ("metrics_history['valid_loss']", "file:valid_loss_history")].          (* no lowest_loss *)
 
 (* aliased = true: cond_dict = condition.__dict__ *)
-Definition old_facts : srcfacts := mkFacts true true true true old_save_dict old_ctor old_restores.
+(* the old save path also drew a batch from the Solver2D train generator and advanced the global
+   `random` module for BundleSolver1D (fixed by 8858019, 50b4f76) *)
+Definition old_effects : list (string * string) := [("Solver2D", "draw:train"); ("BundleSolver1D", "pyrandom")].
+Definition old_facts : srcfacts := mkFacts true true true true old_save_dict old_ctor old_restores old_effects.
 
 Local Close Scope string_scope.
 
 (* a Solver2D whose only condition holds one number and one lambda with retrievable source *)
 Definition c0 : cond := mkCond 7 [("x_min"%string, ANum 0 1); ("x_min_val"%string, AFun 1 true)].
-Definition s0 : state := mkState K2D [11%Z] 5%Z [] [] None None [c0] 0 0 [].
+Definition s0 : state := mkState K2D [11%Z] 5%Z [] [] None None [c0] 0 0 [] (mkEnv 0 0 0 0 0).
 
 (* save() altered the solver even when serialisation FAILED *)
 Theorem old_save_preserves_refuted : exists s ok, ok = false /\ fst (save old_facts s ok) <> s.
@@ -53,7 +56,7 @@ Proof. exists s0, false. split; [reflexivity|]. vm_compute. discriminate. Qed.
 Theorem old_save_preserves_numbers_refuted :
   exists s, fst (save old_facts s false) <> s /\ conds s = [mkCond 3 [("t_0"%string, ANum 0 1)]].
 Proof.
-  exists (mkState K1D [11%Z] 5%Z [] [] None None [mkCond 3 [("t_0"%string, ANum 0 1)]] 0 0 []).
+  exists (mkState K1D [11%Z] 5%Z [] [] None None [mkCond 3 [("t_0"%string, ANum 0 1)]] 0 0 [] (mkEnv 0 0 0 0 0)).
   split; [vm_compute; discriminate | reflexivity].
 Qed.
 
@@ -64,4 +67,23 @@ Theorem old_load_save_solutions_refuted :
 Proof.
   exists s0. eexists. eexists. split; [reflexivity|]. split; [vm_compute; reflexivity|].
   split; vm_compute; discriminate.
+Qed.
+
+(* the old save() consumed a batch of the Solver2D train generator (G1) and advanced the global
+   `random` state for BundleSolver1D (G2) -- also when serialisation failed; a trainer whose batch
+   depends on the generator position then diverges from the never-saved twin *)
+Theorem old_save_consumes_generator_refuted :
+  exists s, kind s = K2D /\ drawn_train (env (fst (save old_facts s false))) = S (drawn_train (env s)).
+Proof. exists s0. split; reflexivity. Qed.
+
+Theorem old_save_advances_python_random_refuted :
+  exists s, kind s = KBundle /\ py_random (env (fst (save old_facts s false))) = S (py_random (env s)).
+Proof. exists (mkState KBundle [7%Z] 5%Z [] [] None None [] 0 1 [[]] (mkEnv 0 0 0 0 0)). split; reflexivity. Qed.
+
+Theorem old_twin_diverges_refuted :
+  exists (tr : state -> epoch_data) s, kind s = K2D /\
+    nets (fit_by tr (fst (save old_facts s false)) 1) <> nets (fit_by tr s 1).
+Proof.
+  exists (fun s => mkEpoch (1#1)%Q (1#1)%Q [Z.of_nat (drawn_train (env s))] 0%Z (1, 1)), s0.
+  split; [reflexivity|]. vm_compute. discriminate.
 Qed.
